@@ -199,7 +199,10 @@ Fixpoint toks_eqb (a b : list tok) : bool :=
   | _, _ => false
   end.
 
-(* IEEE binary32 bits -> binary64 bits (struct.unpack('f') gives a Python float) *)
+(* IEEE binary32 bits -> binary64 bits (struct.unpack('f') gives a Python float).
+   Widening a signalling NaN quiets it (the conversion instruction sets the quiet
+   bit, bit 22 of the binary32 mantissa = bit 51 of the binary64 one, and keeps the
+   payload): 7f800001 -> 7ff8000020000000, as CPython and NumPy show it. *)
 Definition f32_to_f64_bits (u : Z) : Z :=
   let sign := Z.shiftr u 31 in
   let ex := Z.land (Z.shiftr u 23) 255 in
@@ -209,7 +212,9 @@ Definition f32_to_f64_bits (u : Z) : Z :=
     if man =? 0 then s64
     else let k := Z.log2 man in
          s64 + Z.shiftl (k - 149 + 1023) 52 + Z.shiftl (man - Z.shiftl 1 k) (52 - k)
-  else if ex =? 255 then s64 + Z.shiftl 2047 52 + Z.shiftl man 29
+  else if ex =? 255 then
+    if man =? 0 then s64 + Z.shiftl 2047 52
+    else s64 + Z.shiftl 2047 52 + Z.lor (Z.shiftl man 29) (Z.shiftl 1 51)
   else s64 + Z.shiftl (ex - 127 + 1023) 52 + Z.shiftl man 29.
 
 (* a property value as the public API shows it (raw_timestamps=True):
